@@ -64,6 +64,9 @@ def ev_before(trace, first, then):
 
 REGISTRY: dict = {}
 PROTOCOLS: dict = {}
+from .text import CharProtocol as _CharProtocol  # noqa: E402
+
+PROTOCOLS["Char"] = _CharProtocol()  # str predicates of one abstract character (chr(k).isdigit() ...), exact below 256
 
 Loop = LoopSpec
 
@@ -178,36 +181,6 @@ class Contract:
         if dec is not None and check_pre and getattr(ip.task, "c", None) is self and getattr(ip.task, "entry_measure", None) is not None:
             m = dec(self_obj, a) if self_obj is not None else dec(a)
             st.oblige(f"{ip.task.name}/decreases@{f.ref.qualname}:{(site or '').split(':')[-1]}", both(V._cmp(">=", m, 0), V._cmp("<", m, ip.task.entry_measure)), "termination")
-        # exceptional outcomes
-        excs = list(self.raises)
-        riff = getattr(self, "raises_iff", None)
-        if riff is not None:
-            excs = list(riff)
-            conds = [riff[e](self_obj, a) if self_obj is not None else riff[e](a) for e in excs]
-            conds = [cnd if isinstance(cnd, (SBool, bool)) else mk_bool(V._zb(cnd)) for cnd in conds]
-            none = both(*[neg(cnd) for cnd in conds])
-            k = st.choose([none] + conds)
-            if k > 0:
-                exc = SExc(excs[k - 1], ("<from callee contract>",), site=f"callee {f.ref.qualname}")
-                if self_obj is not None and getattr(self, "log_event", None):
-                    self_obj.trace.append((self.log_event, "raised"))
-                er = getattr(self, "effects_raise", None)
-                if er is not None:
-                    er(self_obj, a, exc)
-                raise PyRaise(exc)
-        elif excs:
-            k = st.fork(len(excs) + 1)
-            if k > 0:
-                exc = SExc(excs[k - 1], ("<from callee contract>",), site=f"callee {f.ref.qualname}")
-                old = self_obj.snapshot() if self_obj is not None else None
-                if self_obj is not None:
-                    self.havoc(st, self_obj)
-                orc = getattr(self, "on_raise_callee", None) or self.on_raise
-                for _label, fml in self._gen(orc(old, self_obj, a, exc) if self_obj is not None else orc(a, exc)):
-                    st.assume(fml)
-                if self_obj is not None and getattr(self, "log_event", None):
-                    self_obj.trace.append((self.log_event, "raised"))
-                raise PyRaise(exc)
         det_terms = None
         if getattr(self, "deterministic", False):
             # a deterministic (pure) function: its result is an uninterpreted function of the arguments,
@@ -238,12 +211,53 @@ class Contract:
                         except Unsupported:
                             continue
                         if isinstance(v, V.SOpaque):
-                            det_terms.append(z3.IntVal(st.ghost.get("ver", {}).get(str(v.e), 0)))
+                            det_terms.append(z3.IntVal(st.ghost.get("ver", {}).get(V.zstr(v.e), 0)))
 
                 field_terms(self_obj, reads)
                 if reads is not None:
                     # ... and of the state versions of the opaque children it may consult (all of them)
                     det_terms.append(z3.IntVal(V.atom_code(repr(sorted(st.ghost.get("ver", {}).items())))))
+        # exceptional outcomes
+        excs = list(self.raises)
+        riff = getattr(self, "raises_iff", None)
+        if riff is not None:
+            excs = list(riff)
+            conds = [riff[e](self_obj, a) if self_obj is not None else riff[e](a) for e in excs]
+            conds = [cnd if isinstance(cnd, (SBool, bool)) else mk_bool(V._zb(cnd)) for cnd in conds]
+            none = both(*[neg(cnd) for cnd in conds])
+            k = st.choose([none] + conds)
+            if k > 0:
+                exc = SExc(excs[k - 1], ("<from callee contract>",), site=f"callee {f.ref.qualname}")
+                if self_obj is not None and getattr(self, "log_event", None):
+                    self_obj.trace.append((self.log_event, "raised"))
+                er = getattr(self, "effects_raise", None)
+                if er is not None:
+                    er(self_obj, a, exc)
+                raise PyRaise(exc)
+        elif excs:
+            if det_terms is not None and getattr(self, "deterministic_outcome", False):
+                # `deterministic_outcome = True` on a deterministic contract: WHETHER the call raises (and which of the
+                # listed classes) is, like its result, a function of the same arguments / receiver fields / child state
+                # versions -- an uninterpreted outcome index.  Two calls in the same state therefore end the same way;
+                # in particular `spec_value` in a postcondition, after the body's own call has returned, does not fork
+                # into the exceptional outcome.  (Backed by the same static check as `deterministic`: the body reads
+                # nothing else.)
+                oc = z3.Function(f"fn:{self.target.split(':')[1]}#outcome/{'.'.join(str(t.sort())[0] for t in det_terms)}", *[t.sort() for t in det_terms], z3.IntSort())(*det_terms)
+                st.assume(z3.And(oc >= 0, oc <= len(excs)))
+                k = st.choose([mk_bool(oc == i) for i in range(len(excs) + 1)])
+            else:
+                k = st.fork(len(excs) + 1)
+            if k > 0:
+                exc = SExc(excs[k - 1], ("<from callee contract>",), site=f"callee {f.ref.qualname}")
+                old = self_obj.snapshot() if self_obj is not None else None
+                if self_obj is not None:
+                    self.havoc(st, self_obj)
+                orc = getattr(self, "on_raise_callee", None) or self.on_raise
+                for _label, fml in self._gen(orc(old, self_obj, a, exc) if self_obj is not None else orc(a, exc)):
+                    st.assume(fml)
+                if self_obj is not None and getattr(self, "log_event", None):
+                    self_obj.trace.append((self.log_event, "raised"))
+                raise PyRaise(exc)
         old = self_obj.snapshot() if self_obj is not None else None
         saved_trace = None
         for name in getattr(self, "modifies_args", ()):
@@ -287,6 +301,9 @@ class Contract:
             if eff is not None:
                 eff(old, self_obj, a, result)
         ens_fn = getattr(self, "ensures_callee", None) or self.ensures
+        # (ghost, read-only: the terms a deterministic contract's result is a function of -- a callee view may define
+        #  further deterministic ghost values of the same call from them, e.g. "the item that is the widest")
+        st.ghost["det_terms"] = det_terms
         ens = ens_fn(old, self_obj, a, result) if self_obj is not None else ens_fn(a, result)
         _label = None
         try:
@@ -634,7 +651,18 @@ class VerifyTask:
         kwargs = {k: v for k, v in vals.items() if not k.startswith("g_") and k != "old"}
         # positional binding by parameter name
         try:
-            result = ip.run_function(st, f, args, kwargs)
+            if getattr(c, "through_decorators", False) and self_obj is not None:
+                # opt-in `through_decorators = True`: the method is verified AS CALLERS REACH IT -- its decorators
+                # (e.g. monitored_list._call_modified, which calls the `modified` callback after the body) are applied
+                # exactly as Interp.decorate_method applies them at a call site `self.method(...)`, then the decorated,
+                # bound function is called with the contract's arguments in the order of `params`.  The undecorated body
+                # (which the wrapper calls as `fn`) must be listed in `inline=` under its own key.  CPython cross-check:
+                # the same wrapper is exercised through super() calls by the MonitoredFocusList tasks (replayed natively).
+                f.top_level = False
+                bound = ip.decorate_method(st, f, self_obj)
+                result = ip.call(st, bound, [kwargs[k] for k in c.params], {})
+            else:
+                result = ip.run_function(st, f, args, kwargs)
         except PyRaise as pr:
             exc = pr.exc
             allowed = any(issubclass(exc.cls, r) for r in c.raises)
